@@ -48,6 +48,20 @@ check('C11', 'specs/RoutingTable.tla + specs/RoutingTableTrace.tla + harness/c11
       'interleaved with other table calls inside one probe (the protocol serialises them).',
       'TLC exhaustive model + TLC trace validation of real routing-table histories', 'DESIGN.md 5/C11')
 
+check('C01', 'specs/BlobWrite.tla + specs/BlobWriteTrace.tla + harness/c01_blob.py',
+      'Leg A: TLC explores BlobWrite.tla - up to 3 concurrent HashBlobWriters on one blob, every declared length (right, short, '
+      'long), every chunking and good/bad unit, the asyncio ready queue as an explicit FIFO (close_handle / remove_writer / '
+      'writer_finished_callback, the save task, executor completion, update_events, completed callback), optionally bare-API '
+      'writers and close()/delete() - against Integrity, NoBadFile, OnlyRightLength, OnceOnly, QuiescentComplete, the action '
+      'property VerifiedStable and, under weak fairness, delivered ~> verified and verified ~> every other writer shut down, with '
+      'reachability witnesses. Leg C: 700 (6000) seeded schedules on real BlobFile objects (1 B .. 2 MiB, 1-3 real writers sending '
+      'correct/corrupted/truncated/over-long/unrelated data, single loop callbacks and executor completions interleaved by the '
+      'driver) are recorded through the public API and validated by TLC against BlobWriteTrace.tla: every clause on every real '
+      'state, the completion clause at quiescence; what was delivered is computed from what the driver fed, never read back.',
+      'Trusted: SHA-384 collision resistance (abstracted); asyncio delivers a connection\'s next chunk after the callbacks of the '
+      'previous one; delete() racing with an in-flight save is outside the quantifier (noted in DESIGN).',
+      'TLC exhaustive model with liveness + TLC trace validation of real writer schedules', 'DESIGN.md 5/C01')
+
 NOT_YET = 'check not built yet in this round (design in DESIGN.md section 5); will be claimed once its driver exists'
 ALL = [f'C{i:02d}' for i in range(1, 21)]
 
